@@ -127,6 +127,9 @@ def _job(job):
         # the bit string placement::create_matrix hands over: 8 x total codewords + remainder bits long (C01.R2 checks that hand-off)
         nbits = 8 * ref.total_codewords(v) + ref.remainder_bits(v)
         cq = ("adt", "compact::CompactQR", 0, "CompactQR", (fold.mk_int("usize", nbits), ("symvec",)))
+        pfn = f.fn("placement::place_on_matrix_data")
+        if pfn is not None and (pfn.raw.get("inputs") or [None, None])[1] in ("&[u8]", "&std::vec::Vec<u8>"):
+            cq = ("symvec", (nbits + 7) // 8)  # the stage takes the codeword bytes themselves
         r2 = pe.run("placement::place_on_matrix_data", [("cell", 0), ("ref", ("const", cq))], cells=[q2])
         if r2.kind != "ret":
             out["place"] = {"status": (r2.kind, r2.why)}
@@ -2029,7 +2032,21 @@ def _qr_set(f, q, name, v):
     return q[:4] + (q[4][:i] + (v,) + q[4][i + 1:],)
 
 
-def _selection_run(f, version, ecl, forced, oracle):
+def _stream_of(bits):
+    """the codeword stream a stage is handed: a CompactQR (length, bytes) or the bytes themselves (a slice / vector / token)
+    -> (length value | None, bytes value | None)"""
+    if bits == TOP:
+        return None, None
+    if bits[0] == "adt" and bits[1] == CQ and len(bits[4]) >= 2:
+        return bits[4][0], bits[4][1]
+    if bits[0] in ("tok", "array", "harr", "hview", "vec"):
+        return None, bits
+    if bits[0] == "adt" and "Vec" in bits[1]:
+        return None, bits
+    return None, None
+
+
+def _selection_run(f, version, ecl, forced, oracle, adversarial=False):
     """-> (kind, info): info = dict(result data token, result.mask, out mask, scored list)"""
     pe = peval.PEval(f, max_steps=400000)
     scored = []
@@ -2048,7 +2065,7 @@ def _selection_run(f, version, ecl, forced, oracle):
 
     def s_place(pe_, st, a, t):
         bits = peval._deref(pe_, st, a[1])
-        return upd(pe_, st, a[0], lambda d: ("placed", d, bits[4][1] if bits != TOP and bits[0] == "adt" else None))
+        return upd(pe_, st, a[0], lambda d: ("placed", d, _stream_of(bits)[1]))
 
     def s_transpose(pe_, st, a, t):
         q = peval._deref(pe_, st, a[0])
@@ -2065,7 +2082,11 @@ def _selection_run(f, version, ecl, forced, oracle):
         dx, dy = _qr_get(f, x, "data"), _qr_get(f, y, "data")
         scored.append((dx, dy))
         m = dx[1][2] if dx != TOP and dx[0] == "tok" and dx[1][0] == "masked" else None
-        return fold.mk_int("u32", oracle.get(m, 999))
+        tot = oracle.get(m, 999)
+        if adversarial and len(a) == 3 and a[2] != TOP and a[2][0] == "int" and tot >= a[2][2]:
+            # a scorer that may cut at the bound it is given: the least it may return is the bound itself
+            tot = a[2][2]
+        return fold.mk_int("u32", tot)
 
     pe.summaries.update({"default::create_matrix": s_blank, "placement::place_on_matrix_data": s_place, "default::transpose": s_transpose,
                          "datamasking::mask": s_mask, "default::create_matrix_format_info": s_format, "score::score": s_score})
@@ -2108,8 +2129,14 @@ def c11_r8(ctx, f, rid="C11.R8", report_d1=False):
     for k, mk in enumerate(ref.MASKS):
         other = ref.MASKS[(k + 3) % 8]
         runs.append(("forced=%s,min=%s" % (mk, other), mk, {m: (10 if m == other else 100 + i) for i, m in enumerate(ref.MASKS)}, {mk}))
-    for name, forced, oracle, accept in runs:
-        kind, info = _selection_run(f, version, ecl, forced, oracle)
+    sc_in = (f.fn("score::score").raw.get("inputs") or []) if f.fn("score::score") else []
+    if len(sc_in) == 3 and ctx.inventory.get("score_contract") == "bound":
+        # C11.R9 found that score(candidate, transposed, bound) may return a cut (bound <= result <= total): every scenario is also
+        # played with a scorer that cuts as early and as low as that contract allows
+        runs = runs + [(name + " [scorer cuts at its bound]", forced, oracle, accept, True) for name, forced, oracle, accept in runs]
+    for run_ in runs:
+        name, forced, oracle, accept = run_[:4]
+        kind, info = _selection_run(f, version, ecl, forced, oracle, adversarial=len(run_) > 4)
         if kind == "diverge":
             groups.add("panics", name, "a symbol", info)
             continue
@@ -2194,7 +2221,7 @@ def _new_run(f, n_in, ecl, version, mode, forced, oracle, detected):
 
     def s_place(pe_, st, a, t):
         bits = peval._deref(pe_, st, a[1])
-        return upd(pe_, st, a[0], lambda d: ("placed", d, bits[4][1] if bits != TOP and bits[0] == "adt" else None))
+        return upd(pe_, st, a[0], lambda d: ("placed", d, _stream_of(bits)[1]))
 
     def s_transpose(pe_, st, a, t):
         q = peval._deref(pe_, st, a[0])
@@ -2357,9 +2384,10 @@ def c01_r6(ctx, f, rid="C01.R6"):
                 def s_pom(pe_, st, a, t):
                     bits = peval._deref(pe_, st, a[0])
                     seen["place"] = (bits, to_py(a[1]), to_py(a[2]), peval._deref(pe_, st, a[3]))
-                    if rich["on"] and bits != TOP and bits[0] == "adt":
-                        items = peval._seq_items(pe_, peval._deref_all(pe_, st, bits[4][1])) if bits[4][1] != TOP else None
-                        seen["bytes"] = items
+                    ln_, by_ = _stream_of(bits)
+                    seen["stream"] = (ln_, by_)
+                    if rich["on"] and by_ is not None and by_ != TOP:
+                        seen["bytes"] = peval._seq_items(pe_, peval._deref_all(pe_, st, by_))
                     return _qr_make(f, ("tok", ("symbol",)), fold.mk_int("usize", ref.side(v)))
 
                 def run_once():
@@ -2392,19 +2420,20 @@ def c01_r6(ctx, f, rid="C01.R6"):
                     bad.append(("structure-arguments", ("encode(..).data", l, vv), str(seen.get("structure"))[:120]))
                 pl = seen.get("place")
                 nbits = 8 * ref.total_codewords(v) + ref.remainder_bits(v)
+                ln_, by_ = seen.get("stream", (None, None))
+                # a stage that takes the bytes without a length (a slice) has no length to check: the bytes are the clause
+                len_ok = ln_ is None and by_ is not None or ln_ == fold.mk_int("usize", nbits)
                 if rich["on"]:
                     bs = seen.get("bytes") or []
                     need_b = (nbits + 7) // 8
-                    ok_bits = pl is not None and pl[0] != TOP and pl[0][0] == "adt" and pl[0][4][0] == fold.mk_int("usize", nbits) and \
-                        len(bs) >= need_b and all(bs[j] == ("sbyte", j) for j in range(total)) and \
+                    ok_bits = pl is not None and len_ok and len(bs) >= need_b and all(bs[j] == ("sbyte", j) for j in range(total)) and \
                         all(bs[j] == fold.mk_int("u8", 0) for j in range(total, need_b))
                     if not ok_bits and pl is not None:
                         wrong = [j for j in range(min(len(bs), need_b)) if bs[j] != (("sbyte", j) if j < total else fold.mk_int("u8", 0))]
-                        pl = (("%d bits" % (to_py(pl[0][4][0]) if pl[0] != TOP and pl[0][0] == "adt" and pl[0][4][0] != TOP else -1),
+                        pl = (("%s bits" % (to_py(ln_) if ln_ not in (None, TOP) else "?"),
                                "codeword(s) %s altered" % wrong[:4] if wrong else "%d bytes" % len(bs)),) + tuple(pl[1:])
                 else:
-                    ok_bits = pl is not None and pl[0] != TOP and pl[0][0] == "adt" and pl[0][4][1] == ("tok", ("structured",)) and \
-                        pl[0][4][0] == fold.mk_int("usize", nbits)
+                    ok_bits = pl is not None and len_ok and by_ == ("tok", ("structured",))
                 if not ok_bits or pl[1:3] != (l, vv):
                     bad.append(("placement-arguments", ("structure(..) as %d bits" % nbits, l, vv), str(pl)[:160]))
                 q = r.value
